@@ -375,7 +375,13 @@ class Project:
         """
         # 'OLDAP-2.0.1' is an identifier of its own, not 'OLDAP-2.0' with the
         # file extension '.1'.
-        if not path.suffix or path.name in self.license_map:
+        # Look at the SPDX lists only: self.license_map also holds the custom
+        # licenses found so far, which depends on the order of the listing.
+        if (
+            not path.suffix
+            or path.name in LICENSE_MAP
+            or path.name in EXCEPTION_MAP
+        ):
             raise SpdxIdentifierNotFoundError(f"{path} has no file extension")
         if path.stem in self.license_map:
             return path.stem
